@@ -1,4 +1,4 @@
-"""C06 - sercomm/HDLC serial framing. Model: Model/Sercomm.v; theorems: Props/C06.v.
+"""C06 - sercomm/HDLC serial framing. Model: Model/Sercomm.v + Model/SercommDrv.v (osmocon handle_sercomm_write); theorems: Props/C06.v.
 Tie: Gen/SercommConst.v (constants dumped by a C program that #includes the real sercomm.c/.h, HOST_BUILD)
 + correspondence of the extracted model (w_c06_script) with the ASan/UBSan host build of the real
 sercomm.c + vendored msgb.c/talloc.c, driven by op scripts; implementation-level oracle = end-to-end
@@ -375,6 +375,194 @@ def gen_echo(rng, cap, c):
     return dict(kind="echo", ops=ops, regs=[5], echo=ps, tags=set())
 
 
+# ------------------------------------------------------------------ driver glue: osmocon handle_sercomm_write()
+
+DRV_MAX = 256                              # specification side: at most this many octets per write
+DRV_DLCI = KNOWN_DLCI + [1, 2, 3, 127]     # never 0 / 0x7D / 0x7E (recorded finding c06-dlci-needs-escape)
+DRV_SIZES = [0, 1, 200, 251, 252, 253, 254, 255, 256, 257, 258, 400, 2000]
+
+
+def encode_drv(ops):
+    s = []
+    for op in ops:
+        if op[0] == "send":
+            s += [1, op[1], len(op[2])] + list(op[2])
+        elif op[0] == "calls":
+            s += [6, op[1]]
+        elif op[0] == "drain":
+            s += [7]
+    return s
+
+
+def decode_drv(script):
+    ops, i = [], 0
+    while i < len(script):
+        t = script[i]
+        if t == 1 and i + 2 < len(script):
+            n = script[i + 2]
+            ops.append(("send", script[i + 1], script[i + 3:i + 3 + n])); i += 3 + n
+        elif t == 6 and i + 1 < len(script):
+            ops.append(("calls", script[i + 1])); i += 2
+        elif t == 7:
+            ops.append(("drain",)); i += 1
+        else:
+            break
+    return ops
+
+
+def drv_payload(rng, n):
+    r = rng.below(4)
+    if r == 0:
+        return [0x41 + (k % 23) for k in range(n)]           # no escapes: the framed length is n + 4
+    if r == 1:
+        return [(k * 7 + 1) % 256 for k in range(n)]
+    return payload(rng, n)
+
+
+def gen_drv(rng, cap, c, fixed=None):
+    """messages queued (several back to back on different DLCIs), then the real handle_sercomm_write is called
+    until it disables write polling; in a part of the cases some calls happen between the sends"""
+    ops = []
+    if fixed is not None:
+        for k, n in enumerate(fixed):
+            ops.append(("send", DRV_DLCI[(k * 3 + len(fixed)) % len(DRV_DLCI)], [0x41 + ((j + k) % 23) for j in range(n)]))
+        ops.append(("drain",))
+        return dict(kind="drv", ops=ops, regs=sorted(set(o[1] for o in ops if o[0] == "send")), tags=set(["fixed"]))
+    inter = rng.chance(1, 3)
+    nbig = 0
+    for _ in range(rng.range(1, 7)):
+        r = rng.below(10)
+        if r < 5 and nbig < 3:
+            n = rng.choice(DRV_SIZES)
+        elif r < 7:
+            n = rng.range(240, 270)
+        else:
+            n = rng.range(0, 40)
+        n = min(n, cap - 1)
+        nbig += n >= 2000
+        ops.append(("send", rng.choice(DRV_DLCI), drv_payload(rng, n)))
+        if inter and rng.chance(1, 2):
+            ops.append(("calls", rng.choice([1, 1, 2, 3])))
+    ops.append(("drain",))
+    if rng.chance(1, 6):
+        ops.append(("calls", 1))                                # a call with nothing pending: writes nothing, reports end
+    return dict(kind="drv", ops=ops, regs=sorted(set(o[1] for o in ops if o[0] == "send")),
+                tags=set(["interleaved"] if inter else []))
+
+
+class RefTx:
+    """reference transmit side (from the property text): non-preemptive, lowest DLCI first, FIFO per DLCI"""
+    def __init__(self):
+        self.pending, self.infl, self.pos, self.started = [], [], 0, []
+
+    def send(self, d, p):
+        self.pending.append((d, list(p)))
+
+    def pull(self):
+        if self.pos < len(self.infl):
+            self.pos += 1
+            return self.infl[self.pos - 1]
+        if self.pending:
+            i = min(range(len(self.pending)), key=lambda k: (self.pending[k][0], k))
+            d, p = self.pending.pop(i)
+            self.started.append((d, p))
+            self.infl, self.pos = frame(d, p), 1
+            return self.infl[0]
+        return None
+
+    def idle(self):
+        return self.pos >= len(self.infl) and not self.pending
+
+
+def parse_drv_obs(o):
+    calls, i = [], 0
+    while i < len(o):
+        if o[i] == 7 and i + 2 < len(o) + 0 and o[i + 2] >= 0 and i + 3 + o[i + 2] <= len(o):
+            n = o[i + 2]
+            calls.append((o[i + 1], o[i + 3:i + 3 + n])); i += 3 + n
+        else:
+            return calls, o[i:i + 8]
+    return calls, None
+
+
+def ref_drv(ops):
+    """what the driver glue has to do: per call, write the pending octets in order, at most DRV_MAX of them, and
+    report end exactly when the transmit side ran dry during this call"""
+    tx, calls = RefTx(), []
+
+    def one():
+        ch = []
+        while len(ch) < DRV_MAX:
+            b = tx.pull()
+            if b is None:
+                calls.append((1, ch))
+                return 1
+            ch.append(b)
+        calls.append((0, ch))
+        return 0
+    for op in ops:
+        if op[0] == "send":
+            tx.send(op[1], op[2])
+        elif op[0] == "calls":
+            for _ in range(op[1]):
+                one()
+        elif op[0] == "drain":
+            while not one():
+                pass
+    return calls, tx
+
+
+def oracle_drv(ctx, cs, obs, delivered, cap):
+    full = dict(kind="drv", script=cs["script"], tags=sorted(cs["tags"]), regs=list(cs["regs"]))
+
+    def fail(what, key, expected=None, observed=None):
+        n = ctx.hist.get("oracle_fail:" + key, 0) + ctx.hist.get("oracle_fail_more:" + key, 0)
+        if n >= 6:
+            ctx.count("oracle_fail_more:" + key)
+            return
+        ctx.oracle_fail(what, full, key=key, expected=expected, observed=observed)
+
+    calls, junk = parse_drv_obs(obs)
+    if junk is not None:
+        fail("handle_sercomm_write: unparsable observation / more than one write() per call / short write", "c06-drv-obs", observed=junk)
+        return
+    for e, ch in calls:
+        if len(ch) > DRV_MAX:
+            fail("handle_sercomm_write wrote %d octets in one call (more than its buffer)" % len(ch), "c06-drv-chunk-size", observed=len(ch))
+            break
+    exp, tx = ref_drv(cs["ops"])
+    got_stream = [b for _, ch in calls for b in ch]
+    exp_stream = [b for _, ch in exp for b in ch]
+    if got_stream != exp_stream:
+        k = next((i for i in range(min(len(got_stream), len(exp_stream))) if got_stream[i] != exp_stream[i]),
+                 min(len(got_stream), len(exp_stream)))
+        fail("octets written by repeated handle_sercomm_write calls are not the pulled frame stream: %d written, %d expected, "
+             "first deviation at octet %d (an octet pulled from sercomm was lost, duplicated or reordered)" % (len(got_stream), len(exp_stream), k),
+             "c06-drv-stream", expected=exp_stream[max(0, k - 6):k + 6], observed=got_stream[max(0, k - 6):k + 6])
+    elif [(e, len(ch)) for e, ch in calls] != [(e, len(ch)) for e, ch in exp]:
+        fail("chunking / end flag of handle_sercomm_write: write polling must be disabled exactly by the call that finds the queues drained",
+             "c06-drv-end", expected=[(e, len(ch)) for e, ch in exp][:20], observed=[(e, len(ch)) for e, ch in calls][:20])
+    # independent end-to-end judgement: the written octets went through the REAL receiver (second harness run)
+    if delivered is not None:
+        if not tx.idle():
+            fail("reference still has octets pending after the final drain", "c06-drv-end")
+        want = [(d, p) for d, p in tx.started]
+        if delivered != want:
+            k = next((i for i in range(min(len(delivered), len(want))) if delivered[i] != want[i]), min(len(delivered), len(want)))
+            fail("feeding the octets written by handle_sercomm_write into the real receiver does not deliver every queued message "
+                 "intact, exactly once, lower DLCI first / FIFO: first deviation at message %d" % k, "c06-drv-delivery",
+                 expected=[(d, len(p)) for d, p in want], observed=[(d, len(p)) for d, p in delivered])
+
+
+def drv_behaviour_key(cs, obs):
+    calls, _ = parse_drv_obs(obs)
+    total = sum(len(ch) for _, ch in calls)
+    sends = [o for o in cs["ops"] if o[0] == "send"]
+    escs = any(b in (FLAG, ESC, 0) for o in sends for b in o[2])
+    prio = any(sends[i][1] > sends[i + 1][1] for i in range(len(sends) - 1))
+    return ("drv", tuple(sorted(cs["tags"])), min(len(calls), 5), total % DRV_MAX == 0, total > DRV_MAX, min(len(sends), 3), escs, prio)
+
+
 def gen_cases(ctx, cap, c):
     rng = ctx.rng
     q = ctx.tier == "quick"
@@ -388,6 +576,17 @@ def gen_cases(ctx, cap, c):
             cs = g(r, cap, c, **kw)
             cs["script"] = encode(cs["ops"])
             cases.append(cs)
+    r = rng.fork("gen_drv")
+    for fixed in [[n] for n in DRV_SIZES] + [[252, 252], [253, 0], [1, 254, 1], [400, 400, 400], [2000, 258, 0, 257], [255, 256, 257, 258, 254]]:
+        cs = gen_drv(r, cap, c, fixed=fixed)
+        cs["script"] = encode_drv(cs["ops"])
+        cases.append(cs)
+    for _ in range(60 if q else 1500):
+        cs = gen_drv(r, cap, c)
+        cs["script"] = encode_drv(cs["ops"])
+        cases.append(cs)
+    cases.append(dict(kind="drv-malformed", ops=[], regs=[], tags=set(), script=[1, 5, 3, 1]))
+    cases.append(dict(kind="drv-malformed", ops=[], regs=[], tags=set(), script=[6, 65]))
     # a malformed script (tie robustness): both sides must answer -999
     cases.append(dict(kind="malformed", ops=[], regs=[], tags=set(), script=[4, 5, 7, 1]))
     cases.append(dict(kind="malformed", ops=[], regs=[], tags=set(), script=[3, 5, 1, 2]))
@@ -571,6 +770,8 @@ def run(ctx):
         cases = []
         if isinstance(sc, list) and all(isinstance(x, int) for x in sc):
             cs = dict(kind=rc.get("kind", "replay"), ops=decode(sc), regs=rc.get("regs", []), tags=set(rc.get("tags", [])), script=sc)
+            if cs["kind"] == "drv":
+                cs["ops"] = decode_drv(sc)
             if "items" in rc:
                 cs["items"] = [tuple(it) for it in rc["items"]]
             if "echo" in rc:
@@ -581,7 +782,7 @@ def run(ctx):
         ctx.note("replay: %d script(s) from %s" % (len(cases), ctx.replay))
     else:
         cases = gen_cases(ctx, cap, c)
-    lines = ["w_c06_script " + " ".join(map(str, cs["script"])) for cs in cases]
+    lines = [("w_c06_drv " if cs["kind"].startswith("drv") else "w_c06_script ") + " ".join(map(str, cs["script"])) for cs in cases]
     impl, crashes = run_impl(ctx, binp, lines)
     for k, txt in sorted(crashes.items())[:6]:
         cs = cases[k]
@@ -589,11 +790,35 @@ def run(ctx):
                         dict(kind=cs["kind"], script=cs["script"][:6000], tags=sorted(cs["tags"])), key="c06-crash")
     if len(crashes) > 6:
         ctx.count("oracle_fail_more:c06-crash", len(crashes) - 6)
-    idx = list(range(len(cases)))
+    idx = [k for k in range(len(cases)) if not cases[k]["kind"].startswith("drv")]
     ctx.correspond("sercomm-script", "Sercomm", idx, lambda k: lines[k], lambda k: impl[k],
                    show=lambda k: dict(kind=cases[k]["kind"], script=cases[k]["script"][:3000]))
+    didx = [k for k in range(len(cases)) if cases[k]["kind"].startswith("drv")]
+    if didx:
+        ctx.correspond("sercomm-drv", "Sercomm", didx, lambda k: lines[k], lambda k: impl[k],
+                       show=lambda k: dict(kind=cases[k]["kind"], script=cases[k]["script"][:3000]))
+    # driver glue: the octets written by the real handle_sercomm_write go through the real receiver (second run)
+    dk = [k for k in didx if cases[k]["kind"] == "drv" and cases[k]["ops"] and k not in crashes]
+    lines2 = []
+    for k in dk:
+        calls, _ = parse_drv_obs(impl[k])
+        octs = [b for _, ch in calls for b in ch if 0 <= b <= 255]
+        lines2.append("w_c06_script " + " ".join(map(str, encode([("reg", d) for d in cases[k]["regs"]] + [("feed", octs)]))))
+    impl2, crashes2 = run_impl(ctx, binp, lines2) if lines2 else ([], {})
+    for j, k in enumerate(dk):
+        cs = cases[k]
+        if j in crashes2:
+            ctx.oracle_fail("receiver crash on the octets written by handle_sercomm_write: " + crashes2[j][-400:],
+                            dict(kind="drv", script=cs["script"][:6000], tags=sorted(cs["tags"]), regs=list(cs["regs"])), key="c06-crash")
+            continue
+        final_drain = cs["ops"][-1][0] == "drain" or (len(cs["ops"]) > 1 and cs["ops"][-2][0] == "drain" and cs["ops"][-1][0] == "calls")
+        delivered = [(e[1], e[2]) for e in parse_obs(impl2[j]) if e[0] == "msg"] if final_drain else None
+        oracle_drv(ctx, cs, impl[k], delivered, cap)
+        ctx.nontrivial(drv_behaviour_key(cs, impl[k]))
+        ctx.count("kind:drv")
+        ctx.count("drv_calls", len(parse_drv_obs(impl[k])[0]))
     for k, cs in enumerate(cases):
-        if cs["kind"] in ("malformed", "replay") or not cs["ops"]:
+        if cs["kind"] in ("malformed", "replay") or cs["kind"].startswith("drv") or not cs["ops"]:
             continue
         oracle(ctx, cs, impl[k], cap, c)
         ctx.nontrivial(behaviour_key(cs, impl[k]))
@@ -606,5 +831,7 @@ def run(ctx):
     ctx.extra["rule"] = ("op scripts (send d payload / pull k / feed octets / register d / loopback k) from ctx.rng: Tx interleavings on all queue "
                          "indices incl. 0/125/126, Tx->Rx loopback with recording handlers, Rx streams of flag-free noise + frames + over-long frames "
                          "(payload lengths {0,1,2,0..40,cap-2,cap-1,cap,cap+1,cap+k,2cap+3}, octets half from {7E,7D,00,5E,5D,20}), random garbage incl. flags, "
-                         "register codes, echo DLCI, two malformed scripts; distinct_nontrivial = distinct (kind, tags, #deliveries, #overflows, payload needs escaping, "
+                         "register codes, echo DLCI, two malformed scripts; driver glue (w_c06_drv): the real handle_sercomm_write() text extracted from "
+                         "osmocon.c, messages of {0,1,200,251..258,400,2000,240..270,0..40} octets queued back to back on DLCIs {1,2,3,4,5,9,10,127}, optionally "
+                         "1-3 calls between sends, then calls until write polling is disabled; written octets re-fed into the real receiver; distinct_nontrivial = distinct (kind, tags, #deliveries, #overflows, payload needs escaping, "
                          "partial pulls interleaved, priority inversion in send order)")
